@@ -52,6 +52,8 @@ pub struct ExecInfo {
     pub unbalanced_ret: bool,
     /// the injected fault happens while a subroutine frame is open (a JSR without its RET precedes it)
     pub fault_in_open_frame: bool,
+    /// a leaf subroutine that does not save R7 executes an I/O trap and then returns through R7
+    pub trap_in_leaf_without_r7_spill: bool,
 }
 
 #[derive(Clone, Debug)]
@@ -356,13 +358,30 @@ fn gen_exec_inner(t: &mut Tape, cfg: &ExecCfg) -> Option<ExecProg> {
     g.items = main;
     // subroutines: save R7, body, restore, RET
     for k in 0..g.nsubs {
-        let mut body = vec![Item::Label(g.sub_labels[k]), Item::I(MInstr::Add { dr: 6, sr1: 6, src: Src::Imm(-1) }), Item::I(MInstr::Str { sr: 7, base: 6, off: 0 })];
+        // the last subroutine cannot call another one (no recursion): half of the time it is a leaf routine that does
+        // not spill R7 - the OS routines return with RTI, so an I/O trap inside it leaves R7 alone
+        let leaf = k + 1 == g.nsubs && g.t.chance(1, 2);
+        let mut body = vec![Item::Label(g.sub_labels[k])];
+        if !leaf {
+            body.push(Item::I(MInstr::Add { dr: 6, sr1: 6, src: Src::Imm(-1) }));
+            body.push(Item::I(MInstr::Str { sr: 7, base: 6, off: 0 }));
+        }
+        let traps_before = g.info.traps;
         let nb = 1 + g.t.pick(4);
         for _ in 0..nb {
             g.snippet(&mut body, k + 1, &[], false);
         }
-        body.push(Item::I(MInstr::Ldr { dr: 7, base: 6, off: 0 }));
-        body.push(Item::I(MInstr::Add { dr: 6, sr1: 6, src: Src::Imm(1) }));
+        if leaf {
+            if g.cfg.allow_io && g.info.traps == traps_before {
+                g.io(&mut body);
+            }
+            if g.info.traps > traps_before {
+                g.info.trap_in_leaf_without_r7_spill = true;
+            }
+        } else {
+            body.push(Item::I(MInstr::Ldr { dr: 7, base: 6, off: 0 }));
+            body.push(Item::I(MInstr::Add { dr: 6, sr1: 6, src: Src::Imm(1) }));
+        }
         body.push(Item::I(MInstr::Jmp { base: 7 }));
         g.items.extend(body);
     }
